@@ -86,6 +86,7 @@ impl Check for C01 {
             clock_small: true,
             sampled_faults: true,
             debris: true,
+            focus: true,
         };
         let run = run_conc(tape, &cfg, ctx.detail);
         let mut out = base_out(&run);
@@ -164,6 +165,7 @@ impl Check for C05 {
             clock_small: true,
             sampled_faults: false,
             debris: true,
+            focus: true,
         };
         let run = run_conc(tape, &cfg, ctx.detail);
         let mut out = base_out(&run);
@@ -259,6 +261,7 @@ impl Check for C06 {
             clock_small: true,
             sampled_faults: false,
             debris: true,
+            focus: true,
         };
         let run = run_conc(tape, &cfg, ctx.detail);
         let mut out = base_out(&run);
@@ -471,6 +474,7 @@ impl Check for C04 {
             clock_small: true,
             sampled_faults: false,
             debris: true,
+            focus: true,
         };
         // C04 is about the plain cache: force plain writer and no reader by
         // re-drawing until the configuration qualifies is not replay-friendly;
